@@ -193,6 +193,23 @@ func (c *Ctx) nilFuncCalls(rels ...string) {
 					}
 				}
 			}
+			// a callback inside a loop whose continuation depends on what the callback returned has no
+			// bound of its own: the other side decides how often it runs (a resolver that answers a
+			// library cell with a library cell, for ever)
+			if inLoop(b) {
+				dep := false
+				for _, lb := range f.Blocks {
+					if !inLoop(lb) || !reachableFrom(lb, nil)[b] || !reachableFrom(b, nil)[lb] {
+						continue
+					}
+					if iff := lastIf(lb); iff != nil && derivesFrom(iff.Cond, func(v ssa.Value) bool { return v == ssa.Value(cl) }, true) {
+						if !isErrNilTest(iff.Cond) {
+							dep = true
+						}
+					}
+				}
+				c.check(!dep, "E1.P5-callback-loop", fmt.Sprintf("%s: %s.%s is not re-invoked on its own answer", fnName(f), tn, fn), cl.Pos(), "no loop whose continuation depends on the callback's result", fmt.Sprintf("%s calls the callback %s.%s in a loop that goes on as long as the callback's own answer says so: nothing bounds the number of rounds (a resolver that keeps answering library cells makes decoding run for ever)", fnName(f), tn, fn))
+			}
 			ord++
 			key := fmt.Sprintf("%s: call through %s.%s", fnName(f), tn, fn)
 			if ord > 1 {
@@ -213,3 +230,12 @@ func (c *Ctx) nilFuncCalls(rels ...string) {
 }
 
 var excNilFunc = map[string]string{}
+
+// isErrNilTest: cond is "err ==/!= nil" on an error value (the ordinary failure exit of a loop body).
+func isErrNilTest(cond ssa.Value) bool {
+	bo, ok := cond.(*ssa.BinOp)
+	if !ok || (bo.Op != token.EQL && bo.Op != token.NEQ) {
+		return false
+	}
+	return (isNilConst(bo.Y) && isErrorType(bo.X.Type())) || (isNilConst(bo.X) && isErrorType(bo.Y.Type()))
+}
